@@ -10,6 +10,7 @@ CONSTANTS
   MaxOps = 6
   MaxHeads = 3
   KeepHist = TRUE
+  InactiveRefusedAtOnce = TRUE
 VIEW view
 INVARIANTS IndexesAgree SizeLimit FeeIsInputsMinusOutputs PoolTxsOnceValid AssembledBlockNeverDoubleSpends
 CHECK_DEADLOCK FALSE
